@@ -4,13 +4,19 @@
 // SyncBlockHeader) on the native World: per router two side chains A, B are registered through the real
 // side_chain_manager transactions; the event alphabet per router is
 //
-//	iA1 iA2 iB1 iB2   syncGenesisHeader(chain A|B, genesis G1|G2), operator-signed (G2 != G1, equally acceptable)
-//	hA  hB            syncBlockHeader(chain, one header H that is valid on top of G1), where H is synthesisable
+//	iA0 iA1 iA2 iAz iB0 iB1   syncGenesisHeader(chain, genesis variant), operator-signed. G1, G2: two different ordinary
+//	                          trust roots; G0: the boundary root at height / number / index 0 (tendermint: height 1), where
+//	                          a stored "0" aliases "nothing stored"; Gz: a degenerate root the handler still accepts
+//	                          (empty validator list, all-zero consensus hash, all-zero tendermint header, ont header
+//	                          without consensus configuration) where one exists. All of them are accepted on a fresh chain.
+//	                          Gz is offered only as the FIRST root of chain A (it probes guards that mistake a stored
+//	                          degenerate root for "absent"; every later install over it is explored).
+//	hA hB / hA0               syncBlockHeader(chain, one header valid on top of G1 / of G0), where synthesisable
 //
 // and ALL event sequences up to depth 3 (quick) / 5 (thorough; DESIGN asks for 4) are explored by BFS over storage dumps
 // (state = full store dump + "a trust root was installed on A / on B" flags). A router that keeps the property has
-// 16 reachable states ({none, G1, G2, G1+H} per chain); depth 5 closes that space (fixpoint: every longer sequence
-// revisits an explored state).
+// a small closed state space (per chain: none or one of the installed roots, optionally + its header); depth 5 closes it (fixpoint: every longer sequence
+// revisits an explored state); with the boundary variants the closed space has up to 28 states.
 //
 // Oracle per transition:
 //   - once a syncGenesisHeader for chain X has succeeded, every later syncGenesisHeader for X returns an error AND the
@@ -53,6 +59,13 @@ type routerCase struct {
 	router      uint64
 	ccmc, extra []byte
 	g1, g2      []byte
+	g0          []byte   // boundary genesis: height / number / index 0 (or the lowest the handler accepts)
+	gz          []byte   // degenerate genesis the handler still accepts (empty validator list, zero hash ...); nil: none
+	gzOptional  bool     // drop Gz instead of failing when the pre-flight shows the handler rejects it
+	hdr0        [][]byte // header event valid on top of G0; nil: none
+	g0Note      string
+	gzNote      string
+	hdr0Note    string
 	hdr         [][]byte // headers of the single header-sync event (valid on top of G1); nil: no header event
 	hdrOptional bool     // drop the header event instead of failing when the pre-flight rejects it
 	hdrNote     string
@@ -212,62 +225,105 @@ type routerStats struct {
 	WallS                         float64
 }
 
-func (rc *routerCase) opDesc() map[string]string {
-	m := map[string]string{
-		"iA1": fmt.Sprintf("syncGenesisHeader(chain A=%#x, G1) signed by the consensus operator", rc.chain[0]),
-		"iA2": fmt.Sprintf("syncGenesisHeader(chain A=%#x, G2) signed by the consensus operator", rc.chain[0]),
-		"iB1": fmt.Sprintf("syncGenesisHeader(chain B=%#x, G1) signed by the consensus operator", rc.chain[1]),
-		"iB2": fmt.Sprintf("syncGenesisHeader(chain B=%#x, G2) signed by the consensus operator", rc.chain[1]),
+func (rc *routerCase) genesisOf(v byte) []byte {
+	switch v {
+	case '0':
+		return rc.g0
+	case '1':
+		return rc.g1
+	case '2':
+		return rc.g2
+	case 'z':
+		return rc.gz
 	}
-	if rc.hdr != nil {
-		m["hA"] = "syncBlockHeader(chain A, H): " + rc.hdrNote
-		m["hB"] = "syncBlockHeader(chain B, H)"
+	return nil
+}
+
+var variantDesc = map[byte]string{'0': "G0 (boundary genesis: lowest height the handler accepts)", '1': "G1", '2': "G2",
+	'z': "Gz (degenerate genesis the handler still accepts)"}
+
+func (rc *routerCase) opDesc() map[string]string {
+	m := map[string]string{}
+	for _, e := range rc.evs {
+		x := int(e[1] - 'A')
+		switch {
+		case e[0] == 'i':
+			m[e] = fmt.Sprintf("syncGenesisHeader(chain %c=%#x, %s) signed by the consensus operator", e[1], rc.chain[x], variantDesc[e[2]])
+		case len(e) == 2:
+			m[e] = fmt.Sprintf("syncBlockHeader(chain %c, H): %s", e[1], rc.hdrNote)
+		default:
+			m[e] = fmt.Sprintf("syncBlockHeader(chain %c, H0): %s", e[1], rc.hdr0Note)
+		}
 	}
 	return m
 }
 
+// prepare builds the event menu: chain A gets every genesis variant and both header events, the sibling chain B
+// (independence checks) gets G0, G1 and H.
 func (rc *routerCase) prepare() {
-	rc.txs = map[string]*types.Transaction{
-		"iA1": env.GenesisTx(rc.chain[0], rc.g1), "iA2": env.GenesisTx(rc.chain[0], rc.g2),
-		"iB1": env.GenesisTx(rc.chain[1], rc.g1), "iB2": env.GenesisTx(rc.chain[1], rc.g2),
+	rc.txs = map[string]*types.Transaction{}
+	rc.evs = nil
+	add := func(e string, tx *types.Transaction) {
+		rc.txs[e] = tx
+		rc.evs = append(rc.evs, e)
 	}
-	rc.evs = []string{"iA1", "iA2", "iB1", "iB2"}
+	for _, e := range []string{"iA0", "iA1", "iA2", "iAz", "iB0", "iB1"} {
+		if g := rc.genesisOf(e[2]); g != nil {
+			add(e, env.GenesisTx(rc.chain[e[1]-'A'], g))
+		}
+	}
 	if rc.hdr != nil {
-		rc.txs["hA"] = hsenv.HeadersTx(rc.chain[0], rc.hdr...)
-		rc.txs["hB"] = hsenv.HeadersTx(rc.chain[1], rc.hdr...)
-		rc.evs = append(rc.evs, "hA", "hB")
+		add("hA", hsenv.HeadersTx(rc.chain[0], rc.hdr...))
+		add("hB", hsenv.HeadersTx(rc.chain[1], rc.hdr...))
+	}
+	if rc.hdr0 != nil && rc.g0 != nil {
+		add("hA0", hsenv.HeadersTx(rc.chain[0], rc.hdr0...))
 	}
 }
 
 // preflight: harness sanity on a fresh base state.
 func (rc *routerCase) preflight(sim *hsenv.Sim, base polyenv.Dump) {
-	for _, e := range []string{"iA1", "iA2", "iB1", "iB2"} {
+	for _, e := range append([]string(nil), rc.evs...) {
+		if e[0] != 'i' {
+			continue
+		}
 		sim.Load(base)
-		if res := sim.Exec(rc.txs[e], execHeight, execTime); !res.OK {
-			r.HarnessError("router %s: %s (first installation on a fresh chain) rejected: %v — genesis synthesis is wrong", rc.name, e, res.Err)
+		res := sim.Exec(rc.txs[e], execHeight, execTime)
+		stored := len(diffKeys(base, sim.Dump())) > 0
+		if res.OK && stored {
+			continue
 		}
-		if len(diffKeys(base, sim.Dump())) == 0 {
-			r.HarnessError("router %s: %s accepted but stored nothing", rc.name, e)
+		if e[2] == 'z' && rc.gzOptional {
+			rc.gzNote = fmt.Sprintf("none: the handler does not accept the candidate (%s): ok=%v err=%v", rc.gzNote, res.OK, res.Err)
+			rc.gz = nil
+			rc.prepare()
+			continue
+		}
+		r.HarnessError("router %s: %s (first installation on a fresh chain): ok=%v stored=%v err=%v — genesis synthesis is wrong", rc.name, e, res.OK, stored, res.Err)
+	}
+	hdrOK := func(inst, h string) (bool, string) {
+		sim.Load(base)
+		sim.Exec(rc.txs[inst], execHeight, execTime)
+		mid := sim.Dump()
+		res := sim.Exec(rc.txs[h], execHeight, execTime)
+		n := len(diffKeys(mid, sim.Dump()))
+		return res.OK && n > 0, fmt.Sprintf("router %s: header event %s after %s: ok=%v err=%v changed=%d", rc.name, h, inst, res.OK, res.Err, n)
+	}
+	if rc.hdr != nil {
+		if ok, msg := hdrOK("iA1", "hA"); !ok {
+			if !rc.hdrOptional {
+				r.HarnessError("%s — header synthesis is wrong", msg)
+			}
+			rc.hdr = nil
+			rc.hdrNote = "no header event: " + msg
+			rc.prepare()
 		}
 	}
-	if rc.hdr == nil {
-		return
+	if rc.txs["hA0"] != nil {
+		if ok, msg := hdrOK("iA0", "hA0"); !ok {
+			r.HarnessError("%s — header synthesis is wrong", msg)
+		}
 	}
-	sim.Load(base)
-	sim.Exec(rc.txs["iA1"], execHeight, execTime)
-	mid := sim.Dump()
-	res := sim.Exec(rc.txs["hA"], execHeight, execTime)
-	if res.OK && len(diffKeys(mid, sim.Dump())) > 0 {
-		return
-	}
-	msg := fmt.Sprintf("router %s: header H after G1: ok=%v err=%v changed=%d", rc.name, res.OK, res.Err, len(diffKeys(mid, sim.Dump())))
-	if rc.hdrOptional {
-		rc.hdr = nil
-		rc.hdrNote = "no header event: " + msg
-		rc.prepare()
-		return
-	}
-	r.HarnessError("%s — header synthesis is wrong", msg)
 }
 
 func (rc *routerCase) explore(base polyenv.Dump, depth int) (rs routerStats) {
@@ -286,7 +342,18 @@ func (rc *routerCase) explore(base polyenv.Dump, depth int) (rs routerStats) {
 		Workers:  1,
 		Stop:     r.Expired,
 		Key:      func(s *state) string { return s.key },
-		Events:   func(s *state, depth int) []string { return rc.evs },
+		Events: func(s *state, depth int) []string {
+			if !s.inst[0] || rc.gz == nil {
+				return rc.evs
+			}
+			out := make([]string, 0, len(rc.evs)) // Gz is offered only as the first root of chain A
+			for _, e := range rc.evs {
+				if e != "iAz" {
+					out = append(out, e)
+				}
+			}
+			return out
+		},
 		Step: func(s *state, e string) (*state, bool) {
 			sim.Load(s.d)
 			res := sim.Exec(rc.txs[e], execHeight, execTime)
@@ -469,6 +536,7 @@ func main() {
 	sort.Strings(names)
 	var states, trans, maxDepth int
 	perRouter := map[string]any{}
+	variants := map[string]any{}
 	byName := map[string]*routerCase{}
 	for _, rc := range cases {
 		byName[rc.name] = rc
@@ -488,6 +556,11 @@ func main() {
 			hdr = rc.hdrNote
 		}
 		routers[n] = "covered (router id " + fmt.Sprint(rc.router) + "); " + hdr
+		gv := map[string]string{"G0": rc.g0Note, "Gz": rc.gzNote, "H0": rc.hdr0Note, "events": strings.Join(rc.evs, " ")}
+		if rc.gz != nil {
+			gv["Gz"] = "present: " + rc.gzNote
+		}
+		variants[n] = gv
 		perRouter[n] = rs
 		fmt.Printf("router=%-16s id=%-2d states=%-4d transitions=%-5d first-install-accepted=%-4d reinstall-rejected=%-4d reinstall-ok(!)=%-4d header-ok=%-4d header-rejected=%-4d header-event=%v fixpoint=%v wall=%.1fs\n",
 			n, rc.router, rs.States, rs.Transitions, rs.Accepted, rs.Rejected, rs.ReinstallOK, rs.HdrOK, rs.HdrRejected, rc.hdr != nil, rs.Fixpoint, rs.WallS)
@@ -515,10 +588,11 @@ func main() {
 		"header timestamps are in the past, so the wall-clock future-block tests are constant",
 		"zilliqa / zilliqalegacy genesis + header are the repo's own recorded main-net vectors (test_genesis, first record of test_blocks)")
 	r.Finish(map[string]any{
-		"rule":                          "per router: all sequences over {install G1|G2 on chain A|B, sync header H on A|B} up to the depth bound, BFS over full store dumps; after a successful syncGenesisHeader for a chain every later one must fail and leave the dump byte-identical; first installs accepted; no write to the sibling chain; failed tx changes nothing",
-		"bounds":                        map[string]any{"tier": r.Tier, "max_depth": depth, "events_per_router": "4 installs (+2 header syncs where synthesised)", "chains_per_router": 2},
+		"rule":                          "per router: all sequences over {install G0|G1|G2|Gz on chain A, G0|G1 on chain B, sync header H on A|B, H0 on A} up to the depth bound, BFS over full store dumps; after a successful syncGenesisHeader for a chain every later one must fail and leave the dump byte-identical; first installs accepted; no write to the sibling chain; failed tx changes nothing",
+		"bounds":                        map[string]any{"tier": r.Tier, "max_depth": depth, "events_per_router": "installs iA0 iA1 iA2 iAz(first root only) iB0 iB1 (+ header syncs hA hB hA0 where synthesised)", "chains_per_router": 2},
 		"routers":                       routers,
 		"per_router":                    perRouter,
+		"genesis_variants":              variants,
 		"violation_min_ops":             minOps,
 		"states":                        states,
 		"transitions":                   trans,
